@@ -35,7 +35,15 @@ OPS = [
     (r"\.max\(", ".min("), (r"CallingConvention::Thiscall", "CallingConvention::System"), (r"(?<= )%(?= )", "/"),
     (r"(?<= )\+=(?= )", "-="), (r"(?<= )\+(?= )", "-"), (r"(?<= )\*(?= [a-z])", "+"),
     (r"\.is_empty\(\)", ".len() == 1"),
+    # --- statement-level "simplifications" (index 35..): a dropped check, a dropped update
+    (r"\bif (?!let\b)(?=[^{]*\{\s*$)", "if false && "), (r"\bif (?!let\b)(?=[^{]*\{\s*$)", "if true || "),
+    (r"^\s*[A-Za-z_][\w.]*\.(?:push|insert|push_str|extend)\(.*\);\s*$", ""),
+    (r"^\s*[A-Za-z_][\w.]* (?:\+=|-=|=) [^=].*;\s*$", ""),
+    (r"\?;\s*$", ".ok();"),
 ]
+
+
+OPS_FROM = [0]
 
 
 def candidates(meta, only_files=None):
@@ -57,9 +65,12 @@ def candidates(meta, only_files=None):
             code = line.split("//")[0]
             masked = re.sub(r'"(?:[^"\\]|\\.)*"', lambda m: " " * len(m.group(0)), code)
             for k, (rx, rep) in enumerate(OPS):
+                if k < OPS_FROM[0]:
+                    continue
                 for m in re.finditer(rx, masked):
                     pos = a + len(text[:off].encode("utf8")) + len(line[:m.start()].encode("utf8"))
-                    out.append({"unit": u["unit"], "file": rel, "pos": pos, "len": len(m.group(0).encode("utf8")), "old": m.group(0), "new": rep,
+                    orig = line[m.start():m.end()]
+                    out.append({"unit": u["unit"], "file": rel, "pos": pos, "len": len(orig.encode("utf8")), "old": orig, "new": rep,
                                 "line": src[:pos].count(b"\n") + 1, "tags": u["tags"], "context": line.strip()[:120]})
             off += len(line) + 1
     return out
@@ -118,7 +129,9 @@ def main():
     ap.add_argument("--files")
     ap.add_argument("--seed", type=int, default=1)
     ap.add_argument("--json")
+    ap.add_argument("--ops-from", type=int, default=0, help="use only the operators from this index of OPS on")
     a = ap.parse_args()
+    OPS_FROM[0] = a.ops_from
     runner.ensure_setup()
     meta = weave_mod.weave("/repo", os.path.join(VERIF, "work", "woven"))
     cs = candidates(meta, set(a.files.split(",")) if a.files else None)
